@@ -69,6 +69,8 @@ def run_interp(exe, scripts_file, trace_file, timeout=1800, args=()):
         except subprocess.TimeoutExpired:
             rc = -9
     err = open(errf).read()
+    if rc == 2:
+        raise MachineryError("interpreter %s refused its input: %s" % (os.path.basename(exe), err[-500:]))
     if rc != 0:
         # abnormal end: an event no specification matches marks the spot
         with open(trace_file, "a") as f:
